@@ -8,7 +8,7 @@ cli_repro     every generated case of {adapt, multiscale, interpolate, distance,
               front of every MPI call (harness/pmpi_delay.c linked into the MPI binary: PMPI interposition, /repo is
               not touched).  ALL files the command leaves in its working directory are compared byte for byte
               (sha256).  A difference is an oracle failure; the differing files are kept under replays/C18_files/.
-cli_memcheck  valgrind memcheck (--undef-value-errors=yes) on the plain serial binary for tiny cases of each command:
+cli_memcheck  valgrind memcheck (--undef-value-errors=yes) on the plain serial binary for a tiny 2-D and a tiny 3-D case of each command:
               a "depends on uninitialised value" / "Use of uninitialised value" report is a failure.
 repro_walldist_orders
               (harness/h_repro.c, white-box: the harness defines rand()) the real ref_phys_wall_distance on the same
@@ -513,9 +513,9 @@ def gen_memcheck(rng, tier):
         lambda: 'translate mesh=box n=1,2,1 jitter=0.30 mseed=%d in=meshb out=lb8.ugrid mv=2' % ms(),
         lambda: 'translate mesh=slab n=2,1,1 jitter=0 mseed=%d in=b8.ugrid out=meshb mv=3' % ms(),
     ]
-    if tier == 'quick':   # one tiny case per command (2-D or 3-D)
-        return [pool[2 * c + rng.randint(0, 1)]() for c in range(5)]
-    return [f() for f in pool] + [f() for f in pool]
+    if tier == 'quick':   # one tiny 3-D and one tiny 2-D case per command (valgrind: ~1 s each)
+        return [f() for f in pool]
+    return [f() for f in pool] + [f() for f in pool] + [f() for f in pool]
 
 
 CLI_MEMCHECK = Stream('cli_memcheck', memcheck_harness, None, gen_memcheck, oracle=oracle_memcheck, kind='oracle',
